@@ -388,7 +388,10 @@ def judge(ctx, op, args, before, gbefore, o, p, fault):
             _simobjs(r1, a)
             _simobjs(r2, b)
             sim.probe("instantiate-twice-objects", len(a))
-            shared = set(map(id, a)) & set(map(id, b))
+            # only objects that instantiate_classes built itself count (a signature default such as a
+            # lazy_instance object that the config never mentions is shared by Python semantics)
+            built = set(c[2] for c in sim.cb_log[n0:n2])
+            shared = set(map(id, a)) & set(map(id, b)) & built
             if shared:
                 cls = sorted(type(x).__name__ for x in a if id(x) in shared)
                 ctx.violation("shared-instance", {"op": kind, "what": "shared-instance", "cls": cls[0], "fault": fk}, "instantiating twice from one configuration shares %d object(s): %s" % (len(shared), cls))
